@@ -73,27 +73,32 @@ type VerifCursorStep struct {
 	Section []byte
 }
 
-// VerifFilterCursorPass runs one blockFilterCursor over blocks, calling
-// filtersFor for the given block indexes in the given order, and releases it.
-func VerifFilterCursorPass(file io.ReadSeeker, blocks []DataBlockMetadata, regionStart, regionEnd int64, order []int) []VerifCursorStep {
-	cursor := blockFilterCursor{file: file, blocks: blocks, regionStart: regionStart, regionEnd: regionEnd}
-	defer cursor.release()
-	steps := make([]VerifCursorStep, 0, len(order))
-	for _, i := range order {
-		filters, _, readFailed, err := cursor.filtersFor(i)
-		step := VerifCursorStep{Block: i, Err: err, ReadFailed: readFailed, Filters: filters,
-			HasChunk: cursor.buf != nil, ChunkStart: cursor.chunkStart, ChunkLen: len(cursor.buf)}
-		if section, ok := cursor.heldSection(&blocks[i]); ok {
-			step.Held = true
-			step.Section = append([]byte(nil), section...)
-		}
-		steps = append(steps, step)
-		if readFailed {
-			break
-		}
-	}
-	return steps
+// VerifFilterCursor wraps one blockFilterCursor.
+type VerifFilterCursor struct {
+	cursor blockFilterCursor
+	blocks []DataBlockMetadata
 }
+
+// VerifNewFilterCursor builds a blockFilterCursor over blocks, as evaluateBlockFilters does.
+func VerifNewFilterCursor(file io.ReadSeeker, blocks []DataBlockMetadata, regionStart, regionEnd int64) *VerifFilterCursor {
+	return &VerifFilterCursor{blocks: blocks,
+		cursor: blockFilterCursor{file: file, blocks: blocks, regionStart: regionStart, regionEnd: regionEnd}}
+}
+
+// Step calls filtersFor(i) and reports what it left behind.
+func (v *VerifFilterCursor) Step(i int) VerifCursorStep {
+	filters, _, readFailed, err := v.cursor.filtersFor(i)
+	step := VerifCursorStep{Block: i, Err: err, ReadFailed: readFailed, Filters: filters,
+		HasChunk: v.cursor.buf != nil, ChunkStart: v.cursor.chunkStart, ChunkLen: len(v.cursor.buf)}
+	if section, ok := v.cursor.heldSection(&v.blocks[i]); ok {
+		step.Held = true
+		step.Section = append([]byte(nil), section...)
+	}
+	return step
+}
+
+// Release forwards to blockFilterCursor.release.
+func (v *VerifFilterCursor) Release() { v.cursor.release() }
 
 // VerifRegionWriter forwards to blockFilterRegionWriter.
 type VerifRegionWriter struct{ w blockFilterRegionWriter }
